@@ -81,6 +81,16 @@ fn try_null_datalink(packet: &[u8]) -> Option<(IpAddr, IpAddr, u16, u16)> {
         return None;
     }
 
+    // The packet parser recognises the `1e 00` loopback header and then goes by the IP version
+    // of the packet itself; decide the same way so that the filter sees the endpoints it reports.
+    if packet.len() > 4 && packet[0] == 0x1e && packet[1] == 0x00 {
+        return match packet[4] >> 4 {
+            4 => extract_ipv4_info(&packet[4..]),
+            6 => extract_ipv6_info(&packet[4..]),
+            _ => None,
+        };
+    }
+
     // NULL datalink has 4-byte header with address family
     // AF_INET = 2, AF_INET6 = 30 (on most systems)
     let family = u32::from_ne_bytes([packet[0], packet[1], packet[2], packet[3]]);
@@ -111,7 +121,8 @@ fn extract_ipv4_info(packet: &[u8]) -> Option<(IpAddr, IpAddr, u16, u16)> {
     let dst_ip = IpAddr::V4(Ipv4Addr::new(packet[16], packet[17], packet[18], packet[19]));
 
     // Get IP header length (first 4 bits of byte 0, in 32-bit words)
-    let ihl = (packet[0] & 0x0F) as usize;
+    // A header length below the 20-byte minimum is read as 20, as the packet parser does
+    let ihl = ((packet[0] & 0x0F) as usize).max(5);
     let ip_header_len = ihl.saturating_mul(4);
 
     // TCP header starts after IP header
